@@ -8,11 +8,14 @@
 //! and IcyDraw chunk payloads packed into a minimal PNG container.
 //!
 //! CORRESPONDENCE (ops/impl): for the binary loaders that `Model/Loaders.lean` models (xb bin adf idf tnd,
-//! IcyDraw chunk payloads, TDF, clipboard, the dispatch + SAUCE length arithmetic of `from_bytes`) the
-//! outcome `ok <dims…> | err | panic:<fn>` is compared with the model line by line.
+//! IcyDraw chunk payloads, TDF, clipboard, the dispatch + SAUCE length arithmetic of `from_bytes`), for the bitmap-font
+//! loaders (`Model/FontLoad.lean`: `ok <w> <h> <length> <glyphs>`) and the palette importers (`Model/PalLoad.lean`:
+//! `ok <colours> <hash of the channels>`) the outcome `ok <dims…> | err | panic:<fn>` is compared with the model line by
+//! line.  Font and palette cases are generated and observed in `harness/src/fontpal.rs` (shared with C03).
 //!
 //! Case syntax (= replay input, no blanks): `<ext>:<hexr>` (from_bytes of `f.<ext>`), `@sauce:<hexr>`,
-//! `@font:<hexr>`, `@tdf:<hexr>`, `@clip:<hexr>`, `@pal.<ext>:<hexr>`, `@palf.<fmt>:<hexr>`,
+//! `@font:<hexr>`, `@fontdcs.<slot>:<hexr>` (the font bytes behind `ESC P CTerm:Font:<slot>:<base64> ESC \`), `@tdf:<hexr>`,
+//! `@clip:<hexr>`, `@pal.<ext>:<hexr>` (`@pal.-`: no extension), `@palf.<fmt>:<hexr>`,
 //! `@icyc:<kw>=<hexr>,<kw>=<hexr>…`, `@xbrows:<n>` (synthesised 3n-byte XBin); hexr = hex pairs with runs `xx(n)`,
 //! `-` = empty.
 use crate::icybox::*;
@@ -268,16 +271,6 @@ pub fn run_case(line: &str, emit: &mut dyn FnMut(String)) {
                 }
             };
         }
-        "@font" => {
-            match catch(std::panic::AssertUnwindSafe(|| BitFont::from_bytes("x", &bytes))) {
-                Ok(Ok(_)) => {}
-                Ok(Err(_)) => class = "err",
-                Err(loc) => {
-                    class = "panic";
-                    emit(format!("P {} {}", site_of(&loc), loc));
-                }
-            };
-        }
         "@tdf" => {
             let r = catch(std::panic::AssertUnwindSafe(|| TheDrawFont::from_tdf_bytes(&bytes)));
             let obs = match &r {
@@ -324,33 +317,20 @@ pub fn run_case(line: &str, emit: &mut dyn FnMut(String)) {
             emit(format!("M loaders clip {}", hexr(&bytes)));
             emit(format!("I {}", obs));
         }
-        t if t.starts_with("@pal.") => {
-            let ext = &t[5..];
-            match catch(std::panic::AssertUnwindSafe(|| Palette::import_palette(&PathBuf::from(format!("p.{}", ext)), &bytes))) {
-                Ok(Ok(_)) => {}
-                Ok(Err(_)) => class = "err",
-                Err(loc) => {
-                    class = "panic";
-                    emit(format!("P {} {}", site_of(&loc), loc));
-                }
+        t if crate::fontpal::is_fontpal_tag(t) => {
+            let Some(o) = crate::fontpal::observe(t, &bytes) else {
+                emit("BAD".into());
+                return;
             };
-        }
-        t if t.starts_with("@palf.") => {
-            let fmt = match &t[6..] {
-                "ice" => PaletteFormat::Ice,
-                "hex" => PaletteFormat::Hex,
-                "pal" => PaletteFormat::Pal,
-                "gpl" => PaletteFormat::Gpl,
-                _ => PaletteFormat::Txt,
-            };
-            match catch(std::panic::AssertUnwindSafe(|| Palette::load_palette(&fmt, &bytes))) {
-                Ok(Ok(_)) => {}
-                Ok(Err(_)) => class = "err",
-                Err(loc) => {
-                    class = "panic";
-                    emit(format!("P {} {}", site_of(&loc), loc));
-                }
-            };
+            if let Some((site, loc)) = &o.panic {
+                emit(format!("P {} {}", site, loc));
+            }
+            // the palette matchers of the model are quadratic on one overlong line: those cases are oracle-only
+            if !(t.starts_with("@pal") && bytes.len() > 8000) {
+                emit(format!("M {}", o.op));
+                emit(format!("I {}", o.obs));
+            }
+            class = o.class;
         }
         _ => {
             emit("BAD".into());
@@ -994,7 +974,7 @@ fn with_sauce(content: &[u8], rng: &mut Rng) -> Vec<u8> {
 
 // ------------------------------------------------------------------------------------------------ IcyDraw chunk payload builders
 
-fn iced_header(w: u32, h: u32) -> Vec<u8> {
+pub fn iced_header(w: u32, h: u32) -> Vec<u8> {
     let mut v = vec![0u8, 0, 0, 0, 0, 0, 1, 0, 2, 1, 1];
     v.extend(w.to_le_bytes());
     v.extend(h.to_le_bytes());
@@ -1002,7 +982,7 @@ fn iced_header(w: u32, h: u32) -> Vec<u8> {
 }
 
 #[allow(clippy::too_many_arguments)]
-fn layer_header(title: &[u8], role: u8, mode: u8, flags: u32, x: i32, y: i32, w: u32, h: u32, length: u64) -> Vec<u8> {
+pub fn layer_header(title: &[u8], role: u8, mode: u8, flags: u32, x: i32, y: i32, w: u32, h: u32, length: u64) -> Vec<u8> {
     let mut v = Vec::new();
     v.extend((title.len() as u32).to_le_bytes());
     v.extend(title);
@@ -1118,7 +1098,13 @@ pub fn gen_cases(seed: u64, thorough: bool) -> Vec<String> {
     let k = if thorough { 10 } else { 1 };
 
     // --- 1. engine-written files: as written, under every extension class, truncations, corruptions, extremes
-    for (ext, file) in &files {
+    // (the IcyDraw writer iterates a HashMap, so `.icy` files differ from run to run: every file gets its own random stream,
+    // derived from the seed and its index, and the other areas are reproducible whatever the .icy bytes are)
+    let mut ordinal: std::collections::BTreeMap<String, u64> = Default::default();
+    for (ext, file) in files.iter() {
+        let n = ordinal.entry(ext.clone()).or_insert(0);
+        *n += 1;
+        let mut rng = Rng::new(seed ^ fnv(ext.bytes().map(|b| b as u64).chain([*n, 0x5151])));
         cs.push(case(ext, file));
         let modelled = MODELLED_EXT.contains(&ext.as_str());
         let big = file.len() > 600;
@@ -1373,29 +1359,8 @@ pub fn gen_cases(seed: u64, thorough: bool) -> Vec<String> {
         }
     }
 
-    // --- 5. bitmap fonts (owned by the C10/C17 worker: oracle only)
-    for _ in 0..(40 * k) {
-        let n = *rng.pick(&[0usize, 1, 2, 3, 4, 5, 31, 32, 33, 256, 4096, 4097]);
-        let mut b = rng.bytes(n);
-        match rng.below(4) {
-            0 if n >= 4 => b[0..2].copy_from_slice(&[0x36, 0x04]),
-            1 if n >= 4 => b[0..4].copy_from_slice(&[0x72, 0xb5, 0x4a, 0x86]),
-            _ => {}
-        }
-        cs.push(case("@font", &b));
-    }
-    // PSF2 header extremes
-    {
-        let mut base = vec![0x72u8, 0xb5, 0x4a, 0x86];
-        for v in [0u32, 32, 0, 256, 16, 16, 8] {
-            base.extend(v.to_le_bytes());
-        }
-        base.extend(std::iter::repeat(0u8).take(4096));
-        let fields: Vec<(usize, usize)> = (0..8).map(|i| (4 * i, 4)).collect();
-        for e in extremes(&base, &fields, false).into_iter().step_by(if thorough { 1 } else { 3 }) {
-            cs.push(case("@font", &e));
-        }
-    }
+    // --- 5. bitmap fonts: PSF1 / PSF2 header fields at extremes, raw fonts by length, the DCS route (harness/src/fontpal.rs)
+    cs.extend(crate::fontpal::font_cases(&mut rng, thorough));
 
     // --- 6. TheDraw fonts
     for f in tdf_files(&mut rng) {
@@ -1424,34 +1389,9 @@ pub fn gen_cases(seed: u64, thorough: bool) -> Vec<String> {
         cs.push(case("@tdf", &b));
     }
 
-    // --- 7. palettes
-    let pal = Palette::dos_default();
-    for (fmt, name) in [(PaletteFormat::Ice, "ice"), (PaletteFormat::Hex, "hex"), (PaletteFormat::Pal, "pal"), (PaletteFormat::Gpl, "gpl"), (PaletteFormat::Txt, "txt")] {
-        let file = pal.export_palette(&fmt);
-        cs.push(case(&format!("@palf.{}", name), &file));
-        for ext in ["pal", "gpl", "txt", "hex", "zzz", "PAL"] {
-            cs.push(case(&format!("@pal.{}", ext), &file));
-        }
-        for l in truncation_lengths(file.len(), if thorough { 2000 } else { 0 }, &[0, 8, 12, file.len()], 10, &mut rng) {
-            cs.push(case(&format!("@palf.{}", name), &file[..l]));
-            if name != "ice" {
-                cs.push(case(&format!("@pal.{}", name), &file[..l]));
-            }
-        }
-        for i in 0..(10 * k) {
-            let c = corrupt(&file, &mut rng, 1 + i % 5);
-            cs.push(case(&format!("@palf.{}", name), &c));
-        }
-    }
-    for t in ["JASC-PAL\n0100\n1\n99999999999 1 2\n", "GIMP Palette\n4294967296 0 0 x\n", "GIMP Palette\n#Palette Name:\n  1   2   3 \n", "ICE Palette\nzzzzzz\n#Name:\n", "ffffffffff\n"] {
-        for n in ["ice", "hex", "pal", "gpl", "txt"] {
-            cs.push(case(&format!("@palf.{}", n), t.as_bytes()));
-        }
-    }
-    for _ in 0..(20 * k) {
-        let b = rbytes(&mut rng, 80);
-        cs.push(case(&format!("@pal.{}", rng.pick(&["pal", "gpl", "txt", "hex"])), &b));
-    }
+    // --- 7. palettes: truncations of the engine's export, numbers at extremes in every numeric position, overlong lines,
+    // missing headers, non-UTF-8 (harness/src/fontpal.rs)
+    cs.extend(crate::fontpal::palette_cases(&mut rng, thorough));
 
     // --- 8. clipboard layers
     for d in clipboard_real(&mut rng) {
@@ -1496,7 +1436,8 @@ pub fn gen_cases(seed: u64, thorough: bool) -> Vec<String> {
     }
 
     // --- 9. IcyDraw chunk payloads: real ones from the engine's files, truncated/corrupted; synthetic ones with extremes
-    for (ext, file) in files.iter().filter(|(e, _)| e == "icy") {
+    for (fi, (ext, file)) in files.iter().filter(|(e, _)| e == "icy").enumerate() {
+        let mut rng = Rng::new(seed ^ (0x9191_0000 + fi as u64).wrapping_mul(0x9E37_79B9_7F4A_7C15));
         let chunks = icy_chunks_of(file);
         if chunks.is_empty() {
             continue;
@@ -1696,15 +1637,27 @@ pub fn run(run: &mut Run, seed: u64, thorough: bool, replay: Option<&str>, corpu
             }
         }
     }
-    // crash isolation: the cases are split over parallel worker chains (results keep the case order)
-    let nthreads = if cases.len() < 64 { 1 } else { 8 };
-    let per = (cases.len() + nthreads - 1) / nthreads.max(1);
+    // crash isolation: the cases are split over parallel worker chains (results keep the case order).  Font and palette
+    // cases are cheap, so a loader that stops making progress is cut off after 8 s instead of 25 s.
+    let is_light = |c: &String| crate::fontpal::is_fontpal_tag(c.split(':').next().unwrap_or(""));
+    let (light, heavy): (Vec<String>, Vec<String>) = cases.iter().cloned().partition(|c| is_light(c));
+    let cases: Vec<String> = heavy.iter().chain(light.iter()).cloned().collect();
     let mut handles = Vec::new();
-    for (t, chunk) in cases.chunks(per.max(1)).enumerate() {
-        let d = dir.join(format!("w{}", t));
-        std::fs::create_dir_all(&d).unwrap();
-        let chunk: Vec<String> = chunk.to_vec();
-        handles.push(std::thread::spawn(move || run_in_workers("c02", &d, &chunk, 25)));
+    for (gi, (group, nmax, timeout)) in [(&heavy, 8usize, 25u64), (&light, 3usize, 8u64)].into_iter().enumerate() {
+        let nthreads = if group.len() < 64 { 1 } else { nmax };
+        let per = (group.len() + nthreads - 1) / nthreads.max(1);
+        for (t, chunk) in group.chunks(per.max(1)).enumerate() {
+            let d = dir.join(format!("w{}_{}", gi, t));
+            std::fs::create_dir_all(&d).unwrap();
+            let chunk: Vec<String> = chunk.to_vec();
+            handles.push(std::thread::spawn(move || {
+                if gi == 1 {
+                    crate::fontpal::run_in_workers_breaker("c02", &d, &chunk, timeout, 4)
+                } else {
+                    run_in_workers("c02", &d, &chunk, timeout)
+                }
+            }));
+        }
     }
     let mut results: Vec<Result<Vec<String>, String>> = Vec::new();
     for h in handles {
@@ -1720,7 +1673,7 @@ pub fn run(run: &mut Run, seed: u64, thorough: bool, replay: Option<&str>, corpu
                 let kind = reason.split(':').next().unwrap_or("abort");
                 // an IcyDraw layer that DECLARES a gigantic width dies in the allocator, not in the decoder: own key
                 let kind = if ar == "icyc" && kind == "abort" && icy_declares_huge(case) { "abort-alloc" } else { kind };
-                run.oracle_fail(&format!("{}:{}", ar, kind), case, &format!("loader process died ({}) - abort, stack overflow, allocation beyond {} GiB or no progress for 25 s", reason, MEM_CAP >> 30));
+                run.oracle_fail(&format!("{}:{}", ar, kind), case, &format!("loader process died ({}) - abort, stack overflow, allocation beyond {} GiB or no progress for {} s", reason, MEM_CAP >> 30, if crate::fontpal::is_fontpal_tag(tag) { 8 } else { 25 }));
                 run.count("result:died");
                 run.evaluations += 1;
             }
@@ -1751,6 +1704,8 @@ pub fn run(run: &mut Run, seed: u64, thorough: bool, replay: Option<&str>, corpu
                         run.count(&format!("result:{}", c));
                     } else if l == "BAD" {
                         run.count("result:bad-case");
+                    } else if l == "SKIP" {
+                        run.count("result:skipped-by-breaker");
                     }
                 }
                 if !had_pair {
